@@ -21,6 +21,11 @@ RULE = (
     "non-global callee (except __setstate__) -> 3} by hand labels; verdict rank (own table) must "
     "be >= floor. Non-trivial = floor > 0 and the cell is not the plain GLOBAL+REDUCE+result+bare "
     "form; distinct = distinct byte strings."
+    ' Also: Python-2 module names with floors computed from the module the reference VM'
+    ' effectively resolves; every program is additionally rated after transplanting its opcodes by'
+    ' slice assignment into an object already analysed as harmless; an exhaustive family of calls'
+    ' whose argument is extreme (260-300 levels of nesting, 5000 digits, 100 kB) with floors known'
+    ' by construction.'
 )
 ASSUMPTIONS = [
     "labels are hand-written in vlib/vocab.py from the property text, independent of "
